@@ -78,6 +78,9 @@ def render_module(mname, cells, default, placement, st: fgen.Style, rng: random.
     contains = []
     n = 0
     dc = lambda: " :: " if st.dcolon() else " "  # noqa: E731
+    shared_abstract = rng.random() < 0.6
+    abs_bodies = []
+    intrinsic_specs = [("assignment", "="), ("operator", "=="), ("operator", "/="), ("operator", "<="), ("operator", ">=")] if rng.random() < 0.5 else []
     for cell in cells:
         n += 1
         k = cell["kind"]
@@ -92,7 +95,13 @@ def render_module(mname, cells, default, placement, st: fgen.Style, rng: random.
         elif k == "parameter":
             decl_blocks.append([f"{kw('real')}, {kw('parameter')}{a} :: {nm} = 1.0"])
         elif k == "type":
-            decl_blocks.append([f"{kw('type')}{a} :: {nm}" if a or st.dcolon() else f"{kw('type')} {nm}", f"{kw('integer')} :: c{n}", f"{kw('end')} {kw('type')} {st.nm(nm)}"])
+            if rng.random() < 0.3:
+                # extends a parent whose NAME holds an access keyword (only the access-spec of the statement counts)
+                par = f"{mname}_{rng.choice(['public', 'private'])}_key{n}"
+                decl_blocks.append([f"{kw('type')} :: {par}", f"{kw('integer')} :: pc{n}", f"{kw('end')} {kw('type')} {par}",
+                                    f"{kw('type')}, {kw('extends')}({st.nm(par)}){a} :: {nm}", f"{kw('integer')} :: c{n}", f"{kw('end')} {kw('type')} {st.nm(nm)}"])
+            else:
+                decl_blocks.append([f"{kw('type')}{a} :: {nm}" if a or st.dcolon() else f"{kw('type')} {nm}", f"{kw('integer')} :: c{n}", f"{kw('end')} {kw('type')} {st.nm(nm)}"])
         elif k == "typector":
             # a derived type and a generic interface of the same name (user-defined constructor)
             cf = f"{mname}_cf{n}"
@@ -125,16 +134,31 @@ def render_module(mname, cells, default, placement, st: fgen.Style, rng: random.
                          f"{kw('subroutine')} {s2}(x)", f"{kw('real')} :: x", st.kw("end") + " " + kw("subroutine")]
             names[nm.lower() + "@interface"] = cell
         elif k == "abstract":
-            decl_blocks.append([f"{kw('abstract')} {kw('interface')}", f"{kw('subroutine')} {nm}(x)", f"{kw('real')} :: x", f"{kw('end')} {kw('subroutine')}", f"{kw('end')} {kw('interface')}"])
+            body = [f"{kw('subroutine')} {nm}(x)", f"{kw('real')} :: x", f"{kw('end')} {kw('subroutine')}"]
+            if shared_abstract:
+                abs_bodies.append(body)  # several bodies in ONE block: an access statement names the body, not the block
+            else:
+                decl_blocks.append([f"{kw('abstract')} {kw('interface')}"] + body + [f"{kw('end')} {kw('interface')}"])
         elif k == "operator":
-            op = f".op{n}."
-            ent_name = f"operator({op})"
             f1 = f"{mname}_of{n}"
+            if intrinsic_specs:
+                # defined assignment / an intrinsic operator for a derived type (the spec itself holds `=`, `<`, `/`)
+                gkw, op = intrinsic_specs.pop(0)
+                opt = f"{mname}_opt"
+                if not any(b and b[0].endswith(f":: {opt}") for b in decl_blocks):
+                    decl_blocks.append([f"{kw('type')} :: {opt}", f"{kw('integer')} :: oc", f"{kw('end')} {kw('type')} {opt}"])
+                if gkw == "assignment":
+                    contains += [f"{kw('subroutine')} {f1}(a, b)", f"{kw('type')}({opt}), {kw('intent')}(out) :: a", f"{kw('integer')}, {kw('intent')}(in) :: b", "a%oc = b", st.kw("end") + " " + kw("subroutine")]
+                else:
+                    contains += [f"{kw('logical')} {kw('function')} {f1}(a, b)", f"{kw('type')}({opt}), {kw('intent')}(in) :: a, b", f"{f1} = a%oc > b%oc", st.kw("end") + " " + kw("function")]
+            else:
+                gkw, op = "operator", f".op{n}."
+                contains += [f"{kw('integer')} {kw('function')} {f1}(a, b)", f"{kw('integer')}, {kw('intent')}(in) :: a, b", f"{f1} = a + b", st.kw("end") + " " + kw("function")]
+            ent_name = f"{gkw}({op})"
             # blanks inside a generic-spec are not significant; interface and access statement are spelt independently
-            spell = lambda: kw("operator") + ("" if st.canonical else rng.choice(["", "", " "])) + "(" + ("" if st.canonical else rng.choice(["", "", " "])) + op + ("" if st.canonical else rng.choice(["", "", " "])) + ")"  # noqa: E731
+            spell = lambda: kw(gkw) + ("" if st.canonical else rng.choice(["", "", " "])) + "(" + ("" if st.canonical else rng.choice(["", "", " "])) + op + ("" if st.canonical else rng.choice(["", "", " "])) + ")"  # noqa: E731
             op_stmt_spelling = spell()
             decl_blocks.append([f"{kw('interface')} {spell()}", f"{kw('module')} {kw('procedure')} {f1}", f"{kw('end')} {kw('interface')}"])
-            contains += [f"{kw('integer')} {kw('function')} {f1}(a, b)", f"{kw('integer')}, {kw('intent')}(in) :: a, b", f"{f1} = a + b", st.kw("end") + " " + kw("function")]
         elif k in ("component", "binding"):
             tn = f"{mname}_t{n}"
             ta = (", " + kw(cell["type_access"])) if cell["type_access"] != "none" else ""
@@ -162,8 +186,10 @@ def render_module(mname, cells, default, placement, st: fgen.Style, rng: random.
             ent_name = f"{tn}%{nm}"
         names[ent_name.lower()] = cell
         if cell["stmt"] != "none":
-            s = f"{kw(cell['stmt'])}{dc()}{st.nm(ent_name) if not ent_name.startswith('operator') else op_stmt_spelling}"
+            s = f"{kw(cell['stmt'])}{dc()}{st.nm(ent_name) if not ent_name.startswith(('operator', 'assignment')) else op_stmt_spelling}"
             (before if cell["place"] == "before" else after).append(s)
+    if abs_bodies:
+        decl_blocks.append([f"{kw('abstract')} {kw('interface')}"] + [l for b in abs_bodies for l in b] + [f"{kw('end')} {kw('interface')}"])
     rng.shuffle(decl_blocks)
     rng.shuffle(before)
     rng.shuffle(after)
